@@ -30,6 +30,14 @@ Basis == { RqA("gas", 1, "INT", <<>>), RqA("sas", 1, "INT", << <<21, 0>>, <<22, 
 Lists == UNION { [1 .. k -> Basis] : k \in 1 .. MaxOps }
 ASSUME PrintT(ToJson([k |-> "cfg", cfg |-> QCfg, mem0 |-> ZeroMemOf(QCfg)]))
 ASSUME \A r \in Basis : PrintT(ToJson([k |-> "op", r |-> r, text |-> OpText(QCfg, r)]))
+\* replies larger than one receive buffer: a 100-element DINT array read many times in one Multiple Service Packet
+BigCfg == [ budget |-> 488,
+            tags |-> << [name |-> <<88>>, type |-> "DINT", len |-> 100, scalar |-> FALSE, cia |-> <<2, 1, 1>>],
+                        [name |-> <<65>>, type |-> "INT", len |-> 3, scalar |-> FALSE, cia |-> <<2, 1, 2>>] >> ]
+BigBasis == { Rq("read", 1, "sym", 0, 100, "DINT", <<>>), Rq("read", 1, "sym", 10, 90, "DINT", <<>>),
+              Rq("write", 1, "sym", 98, 2, "DINT", << <<8, 0, 0, 0>>, <<9, 0, 0, 0>> >>), Rq("read", 2, "sym", 0, 3, "INT", <<>>) }
+ASSUME PrintT(ToJson([k |-> "bigcfg", cfg |-> BigCfg, mem0 |-> ZeroMemOf(BigCfg)]))
+ASSUME \A r \in BigBasis : PrintT(ToJson([k |-> "bigop", r |-> r, text |-> OpText(BigCfg, r)]))
 VARIABLE lst
 LInit == lst \in Lists
 LNext == FALSE /\ UNCHANGED lst
